@@ -1,7 +1,6 @@
 package keeper
 
 import (
-	"bytes"
 	"context"
 	"errors"
 	"fmt"
@@ -47,9 +46,6 @@ func (k Keeper) DivvyingTips(ctx context.Context, reporterAddr sdk.AccAddress, r
 		delTotalDec := delAddrs.Total.ToLegacyDec()
 		delegatorShare := netReward.Mul(delAmountDec).Quo(delTotalDec)
 
-		if bytes.Equal(del.DelegatorAddress, reporterAddr.Bytes()) {
-			delegatorShare = delegatorShare.Add(commission)
-		}
 		// get selector's previous tips
 		oldTips, err := k.SelectorTips.Get(ctx, del.DelegatorAddress)
 		if err != nil {
@@ -64,6 +60,21 @@ func (k Keeper) DivvyingTips(ctx context.Context, reporterAddr sdk.AccAddress, r
 		// set new tip total
 		err = k.SelectorTips.Set(ctx, del.DelegatorAddress, newTips)
 		if err != nil {
+			return err
+		}
+	}
+
+	// the commission is credited to the reporter exactly once, however many of the token origins
+	// are the reporter's own (it was added once per own origin, and never if the reporter had none)
+	if !commission.IsZero() {
+		oldTips, err := k.SelectorTips.Get(ctx, reporterAddr.Bytes())
+		if err != nil {
+			if !errors.Is(err, collections.ErrNotFound) {
+				return err
+			}
+			oldTips = math.LegacyZeroDec()
+		}
+		if err := k.SelectorTips.Set(ctx, reporterAddr.Bytes(), oldTips.Add(commission)); err != nil {
 			return err
 		}
 	}
